@@ -51,6 +51,10 @@ def gen_inputs(rng, styled_p=0.5, out_p=0.0, max_models=2):
         return [("Root", [gen.gen_identical_siblings(rng)])]
     if r < 0.74:
         return [("Root", gen.gen_object_members(rng))]
+    if r < 0.78:
+        return [("Root", gen.gen_literal_boundary(rng))]
+    if r < 0.81:
+        return [("Root", gen.gen_long_literal(rng))]
     n = rng.choice([1] * 3 + [2] * (max_models > 1))
     kp = gen.key_pool(rng, styled_p, out_p)
     out = []
